@@ -126,7 +126,7 @@ var undecidedClauses = map[string][]string{
 	"C14": {"interoperation with an actual independent implementation (the specification is encoded in the postconditions instead)", "AES-CTR/SHA-256 themselves (uninterpreted)", "Dial/WrapConn callers and the precondition that the wrapped conn is not itself an obfs2Conn"},
 	"C15": {"behaviour against an actual conforming server (none in the tree)", "stream / ticket / packet clauses are not yet under contract"},
 	"C16": {"the HTTP layer: that every request of a connection carries the same X-Session-Id, and the retry loop of roundTrip (net/http is not modelled; roundTrip is an assumed contract)", "that polling stops after Close (the worker's select observes the close channel; liveness is not decided)", "interleavings of Read/Write callers with the worker goroutine beyond the channel FIFO abstraction", "enqueueWrite's recover() of a send on the closed queue"},
-	"C17": {"exact parse result of parseClientParameters (escape-processing state machine into a map) and its round trip with an encoder that is not part of /repo", "Handshake returns success even if disarming the deadline failed (the deferred closure assigns a local that was already returned) - observation, not part of C17"},
+	"C17": {"round trip of the argument parser with an encoder (none is part of /repo): the parser is proved to be exactly the specified byte-level state machine, but parse(encode(x)) = x needs induction over strings", "the map produced by Args.Add is represented by the ordered log of (key, value) pairs added to it", "Handshake returns success even if disarming the deadline failed (the deferred closure assigns a local that was already returned) - observation, not part of C17"},
 	"C18": {"durability beyond a process kill (fsync, directory entries, power loss)", "json.Unmarshal leaving absent fields untouched (modelled as overwriting all five fields)", "concurrent starts on one state directory", "crash during ssTicketStore.serialize is harmless only because loadTicketStore tolerates any content (proved); the serialize body (map iteration) is not under contract"},
 	"C19": {"relay prefix / drain-before-close under racing io.Copy goroutines"},
 	"C20": {"cleanliness of stdlib error fields (assumption)"},
